@@ -144,6 +144,14 @@ def impl_lineage(job):
                 spa = LineageVolumeSplitter(M, options=oa, partition_noise=0.0)
                 M.create_division_rule("volume", {"threshold": 1.0e6}, spa)
                 M.create_division_event("division", {}, "massaction", {"k": 0.5, "species": ""}, sp)
+            elif it.get("cause") == "staged":
+                # staged construction: a model that already has a (never reached) division rule with the opposite splitter is
+                # initialised, THEN receives the division rule and splitter of the record, and is initialised again
+                oa = {names[i]: ("binomial" if it["modes"][i] == "duplicate" else "duplicate") for i in range(3)}
+                oa["volume"] = "perfect" if it["vmode"] == "duplicate" else "duplicate"
+                M.create_division_rule("volume", {"threshold": 1.0e6}, LineageVolumeSplitter(M, options=oa, partition_noise=0.0))
+                M.py_initialize()
+                M.create_division_rule(it["div"][0], dict(it["div"][1]), sp)
             else:
                 M.create_division_rule(it["div"][0], dict(it["div"][1]), sp)
             if it.get("death"):
@@ -232,7 +240,7 @@ def run(tier):
             vmode = "perfect"      # a duplicated volume is already above a volume threshold: bioscrape refuses ("dividing too fast")
         death = [None, None, ("species", {"specie": "S1", "threshold": 0.5, "comp": "<"}),
                  ("species", {"specie": "S1", "threshold": 5.5, "comp": ">"})][(i // 2) % 4]
-        items.append({"id": i + 1, "death": death, "cause": "event" if i % 3 == 2 else "rule", "rx": i % len(REACTIONS), "div": div, "modes": MODESETS[(i // 3) % 4],
+        items.append({"id": i + 1, "death": death, "cause": "event" if i % 3 == 2 else ("staged" if i % 4 == 1 else "rule"), "rx": i % len(REACTIONS), "div": div, "modes": MODESETS[(i // 3) % 4],
                       "vmode": vmode, "x0": [(3 * i + seed) % 7, (5 * i) % 4, (i // 2) % 3], "nt": 21 + 4 * (i % 3),
                       "seed": seed * 104729 + i + 1, "safe": bool(i % 2)})
     tres = pool.run_jobs("c19", "impl_lineage", [{"items": ch} for ch in pool.chunks(items, 20)])
@@ -270,8 +278,8 @@ def run(tier):
         else:
             it = byid[L["id"]]
             exhausted = "runs-out" if it["rx"] in (0, 1, 4) else "sustained"
-            if it.get("cause") == "event":
-                exhausted += ":division-event"
+            if it.get("cause") in ("event", "staged"):
+                exhausted += ":division-event" if it["cause"] == "event" else ":staged-construction"
             v.violation("lineage:%s:%s" % (vd["clause"], exhausted), "lineage rejected: clause %s (%d cells, %d divisions)" % (vd["clause"], vd["cells"], vd["divisions"]),
                         {"item": it, "lineage": L, "verdict": vd})
     rc = v.finish()
